@@ -14,28 +14,48 @@ Open Scope N_scope.
    of its length), the verification type is valid and the chain is good for that role (trusted
    pool of the role, validity window, usage of the role, and the DNS name when one is expected),
    and — when a receptor node is expected — the name extension parses and names that node *)
-Theorem verify_ok_iff : forall c f,
-  verify c f = Accept <->
+Theorem verify_ok_iff : forall c f now,
+  verify c f now = Accept <->
   f_present f = true /\ f_parses f = true /\ pins_ok (c_pins c) f /\
-  (exists r, role_of (c_vtype c) = Some r /\ x509_ok c r f) /\ name_ok c f.
+  (exists r, role_of (c_vtype c) = Some r /\ x509_ok c r f now) /\ name_ok c f.
 Proof. exact verify_ok_iff_proof. Qed.
 Print Assumptions verify_ok_iff.
 
 (* failure of any single condition refuses *)
-Theorem single_failure_refuses : forall c f,
-  (f_present f = false -> verify c f <> Accept) /\
-  (f_parses f = false -> verify c f <> Accept) /\
-  (role_of (c_vtype c) = None -> verify c f <> Accept) /\
-  ((exists p, In p (c_pins c) /\ legal_len (blen p) = false) -> verify c f <> Accept) /\
-  (c_pins c <> [] -> (forall p, In p (c_pins c) -> pin_matches f p = false) -> verify c f <> Accept) /\
-  (forall r, role_of (c_vtype c) = Some r -> chain_ok r f = false -> verify c f <> Accept) /\
-  (f_time_ok f = false -> verify c f <> Accept) /\
-  (forall r, role_of (c_vtype c) = Some r -> eku_ok r f = false -> verify c f <> Accept) /\
-  (c_htype c = HOST_DNS -> c_expected c <> [] -> f_dns f (c_expected c) = false -> verify c f <> Accept) /\
+Theorem single_failure_refuses : forall c f now,
+  (f_present f = false -> verify c f now <> Accept) /\
+  (f_parses f = false -> verify c f now <> Accept) /\
+  (role_of (c_vtype c) = None -> verify c f now <> Accept) /\
+  ((exists p, In p (c_pins c) /\ legal_len (blen p) = false) -> verify c f now <> Accept) /\
+  (c_pins c <> [] -> (forall p, In p (c_pins c) -> pin_matches f p = false) -> verify c f now <> Accept) /\
+  (forall r, role_of (c_vtype c) = Some r -> chain_ok r f = false -> verify c f now <> Accept) /\
+  (time_ok f now = false -> verify c f now <> Accept) /\
+  (forall r, role_of (c_vtype c) = Some r -> eku_ok r f = false -> verify c f now <> Accept) /\
+  (c_htype c = HOST_DNS -> c_expected c <> [] -> f_dns f (c_expected c) = false -> verify c f now <> Accept) /\
   (c_htype c = HOST_RECEPTOR -> (forall names, f_names f = Ok names -> ~ In (c_expected c) names) ->
-   verify c f <> Accept).
+   verify c f now <> Accept).
 Proof. exact single_failure_refuses_proof. Qed.
 Print Assumptions single_failure_refuses.
+
+(* "is currently valid": the time that counts is the time of the CALL of the verifier (of the
+   handshake), an argument of [verify] — not the time the verifier or the TLS configuration was
+   built.  Outside the validity window the verifier refuses whatever else holds ... *)
+Theorem verify_outside_window_refuses : forall c f now,
+  now < f_not_before f \/ f_not_after f < now -> verify c f now <> Accept.
+Proof. exact Proofs.Tls.verify_outside_window_refuses. Qed.
+Print Assumptions verify_outside_window_refuses.
+
+(* ... the verdict depends on the time of the call only through the validity window ... *)
+Theorem verify_time_only_through_window : forall c f now1 now2,
+  time_ok f now1 = time_ok f now2 -> verify c f now1 = verify c f now2.
+Proof. exact Proofs.Tls.verify_time_only_through_window. Qed.
+Print Assumptions verify_time_only_through_window.
+
+(* ... and the same verifier that accepted a certificate refuses it once it has expired *)
+Theorem verify_follows_the_clock : forall c f t1 t2,
+  verify c f t1 = Accept -> f_not_after f < t2 -> verify c f t2 = Refuse R_X509.
+Proof. exact Proofs.Tls.verify_follows_the_clock. Qed.
+Print Assumptions verify_follows_the_clock.
 
 (* GetClientTLSConfig: an InsecureSkipVerify profile gets nothing installed; otherwise the verifier
    is installed, and crypto/tls' own host-name verification is switched off only in receptor mode *)
@@ -53,48 +73,48 @@ Print Assumptions client_config_installs_verifier.
 
 (* a backend connection or stream dialled with such a config is established only if the
    verifier accepts the server's certificate *)
-Theorem client_connection_needs_verified_server : forall p expected htype tc f,
+Theorem client_connection_needs_verified_server : forall p expected htype tc f now,
   p_skip p = false ->
   client_config (Found p) expected htype = Ok (Some tc) ->
-  client_handshake tc f = true ->
-  verify (mkCfg VERIFY_SERVER htype expected (p_pins p)) f = Accept.
+  client_handshake tc f now = true ->
+  verify (mkCfg VERIFY_SERVER htype expected (p_pins p)) f now = Accept.
 Proof. exact client_handshake_sound. Qed.
 Print Assumptions client_connection_needs_verified_server.
 
 (* a server profile with client authentication accepts a handshake only if the verifier accepts
    the client's certificate (an absent certificate is refused by the verifier itself) *)
-Theorem server_connection_needs_verified_client : forall sp f,
+Theorem server_connection_needs_verified_client : forall sp f now,
   (sp_require sp = true \/ sp_cas sp = true) ->
-  server_handshake (server_config sp) f = true ->
-  verify (mkCfg VERIFY_CLIENT HOST_DNS [] (sp_pins sp)) f = Accept.
+  server_handshake (server_config sp) f now = true ->
+  verify (mkCfg VERIFY_CLIENT HOST_DNS [] (sp_pins sp)) f now = Accept.
 Proof. exact server_handshake_sound. Qed.
 Print Assumptions server_connection_needs_verified_client.
 
 (* the mutually authenticated stream listener: a stream is accepted only if the client certificate
    passes the configured verification (chain to ClientCAs, validity, client usage, pins) and names
    the node the packets claim to come from — for EVERY node ID, ':' included *)
-Theorem listener_binds_claimed_source : forall sp remote f,
+Theorem listener_binds_claimed_source : forall sp remote f now,
   sp_require sp = true ->
-  server_handshake (listener_config (server_config sp) remote) f = true ->
-  verify (mkCfg VERIFY_CLIENT HOST_DNS [] (sp_pins sp)) f = Accept /\
-  verify (name_verifier (a_node remote)) f = Accept /\
+  server_handshake (listener_config (server_config sp) remote) f now = true ->
+  verify (mkCfg VERIFY_CLIENT HOST_DNS [] (sp_pins sp)) f now = Accept /\
+  verify (name_verifier (a_node remote)) f now = Accept /\
   exists names, f_names f = Ok names /\ In (a_node remote) names.
 Proof. exact listener_binds_claimed_source_proof. Qed.
 Print Assumptions listener_binds_claimed_source.
 
 (* so a node cannot present another node's identity *)
-Theorem listener_refuses_another_nodes_identity : forall sp node service f names,
+Theorem listener_refuses_another_nodes_identity : forall sp node service f names now,
   sp_require sp = true -> f_names f = Ok names -> ~ In node names ->
-  server_handshake (listener_config (server_config sp) (mkAddr node service)) f = false.
+  server_handshake (listener_config (server_config sp) (mkAddr node service)) f now = false.
 Proof. exact listener_refuses_foreign_identity. Qed.
 Print Assumptions listener_refuses_another_nodes_identity.
 
 (* the pinned tree (name = text before the first ':' of the printed source address) violates it:
    a dial from node "a:b" is accepted with a certificate naming only node "a" ... *)
 Theorem listener_binds_claimed_source_refuted :
-  exists sp remote f names,
+  exists sp remote f names now,
     sp_require sp = true /\ f_names f = Ok names /\ ~ In (a_node remote) names /\
-    server_handshake (listener_config_pinned (server_config sp) remote) f = true.
+    server_handshake (listener_config_pinned (server_config sp) remote) f now = true.
 Proof. exact listener_binds_claimed_source_refuted_proof. Qed.
 Print Assumptions listener_binds_claimed_source_refuted.
 
@@ -107,15 +127,15 @@ Print Assumptions listener_binds_claimed_source_partial.
 (* the pinned tree also replaced the configured verifier, so pinned client certificates were not
    checked on mesh streams; the repaired listener keeps them *)
 Theorem listener_pins_refuted :
-  exists sp remote f,
+  exists sp remote f now,
     sp_require sp = true /\ sp_pins sp <> [] /\ ~ pins_ok (sp_pins sp) f /\
-    server_handshake (listener_config_pinned (server_config sp) remote) f = true.
+    server_handshake (listener_config_pinned (server_config sp) remote) f now = true.
 Proof. exact listener_pins_refuted_proof. Qed.
 Print Assumptions listener_pins_refuted.
 
-Theorem listener_keeps_pins : forall sp remote f,
+Theorem listener_keeps_pins : forall sp remote f now,
   sp_require sp = true ->
-  server_handshake (listener_config (server_config sp) remote) f = true ->
+  server_handshake (listener_config (server_config sp) remote) f now = true ->
   pins_ok (sp_pins sp) f.
 Proof. exact listener_keeps_pins_proof. Qed.
 Print Assumptions listener_keeps_pins.
@@ -124,21 +144,21 @@ Print Assumptions listener_keeps_pins.
    a time, including the loop-order cases of the pin list (an illegal length is an error whether
    it comes before or after a matching pin) *)
 Example C09_nonvacuous :
-  verify ex_cfg ex_facts = Accept
-  /\ verify (mkCfg VERIFY_CLIENT HOST_DNS (str "host.example"%string) [ex_d224]) ex_facts = Accept
-  /\ verify (mkCfg VERIFY_SERVER HOST_RECEPTOR (str "node-c"%string) []) ex_facts = Refuse R_NAME
-  /\ verify (mkCfg VERIFY_SERVER HOST_DNS (str "other.example"%string) []) ex_facts = Refuse R_X509
-  /\ verify (mkCfg 0 HOST_RECEPTOR (str "node-a"%string) []) ex_facts = Refuse R_VTYPE
-  /\ verify (mkCfg VERIFY_SERVER HOST_RECEPTOR (str "node-a"%string) [repeat 9 32]) ex_facts = Refuse R_PINMISS
-  /\ verify (mkCfg VERIFY_SERVER HOST_RECEPTOR (str "node-a"%string) [ex_d256; repeat 9 31]) ex_facts = Refuse R_PINLEN
-  /\ verify (mkCfg VERIFY_SERVER HOST_RECEPTOR (str "node-a"%string) [repeat 9 31; ex_d256]) ex_facts = Refuse R_PINLEN.
+  verify ex_cfg ex_facts ex_now = Accept
+  /\ verify (mkCfg VERIFY_CLIENT HOST_DNS (str "host.example"%string) [ex_d224]) ex_facts ex_now = Accept
+  /\ verify (mkCfg VERIFY_SERVER HOST_RECEPTOR (str "node-c"%string) []) ex_facts ex_now = Refuse R_NAME
+  /\ verify (mkCfg VERIFY_SERVER HOST_DNS (str "other.example"%string) []) ex_facts ex_now = Refuse R_X509
+  /\ verify (mkCfg 0 HOST_RECEPTOR (str "node-a"%string) []) ex_facts ex_now = Refuse R_VTYPE
+  /\ verify (mkCfg VERIFY_SERVER HOST_RECEPTOR (str "node-a"%string) [repeat 9 32]) ex_facts ex_now = Refuse R_PINMISS
+  /\ verify (mkCfg VERIFY_SERVER HOST_RECEPTOR (str "node-a"%string) [ex_d256; repeat 9 31]) ex_facts ex_now = Refuse R_PINLEN
+  /\ verify (mkCfg VERIFY_SERVER HOST_RECEPTOR (str "node-a"%string) [repeat 9 31; ex_d256]) ex_facts ex_now = Refuse R_PINLEN.
 Proof. exact verify_nonvacuous. Qed.
 
 Example C09_listener_nonvacuous :
   server_handshake (listener_config (server_config (mkSProfile true true [ex_d256]))
                                     (mkAddr (str "a:b"%string) (str "svc"%string)))
-                   (ex_client_facts [str "a:b"%string]) = true
+                   (ex_client_facts [str "a:b"%string]) ex_now = true
   /\ server_handshake (listener_config_pinned (server_config (mkSProfile true true [ex_d256]))
                                     (mkAddr (str "a:b"%string) (str "svc"%string)))
-                   (ex_client_facts [str "a:b"%string]) = false.
+                   (ex_client_facts [str "a:b"%string]) ex_now = false.
 Proof. exact listener_accepts_own_identity. Qed.
